@@ -2295,6 +2295,42 @@ def h_broadcast_shapes(ev, args, kwargs, fr, node):
     return TupleV([Num(d_) for d_ in out])
 
 
+def _concrete_double(v):
+    return isinstance(v, Num) and not v.shape and v.expr.is_Rational and is_double(v.expr)
+
+
+def h_two_sum(ev, args, kwargs, fr, node):
+    """astropy.time.utils.two_sum: Knuth's branch-free error-free addition (exact for doubles in either order).  Folded only
+    for concrete doubles under float_fold; symbolically an opaque pair with hi + lo = a + b."""
+    a, b = args
+    if getattr(ev, "float_fold", False) and _concrete_double(a) and _concrete_double(b):
+        rd = round_to_double
+        x = rd(a.expr + b.expr)
+        eb = rd(x - a.expr)
+        ea = rd(x - eb)
+        lo = rd(rd(a.expr - ea) + rd(b.expr - eb))
+        return TupleV([Num(x, isfloat=True), Num(lo, isfloat=True)])
+    if isinstance(a, Num) and isinstance(b, Num):
+        hi = sp.Function("TwoSumHi")(a.expr, b.expr)
+        return TupleV([Num(hi, isfloat=True, shape=a.shape or b.shape), Num(a.expr + b.expr - hi, isfloat=True, shape=a.shape or b.shape)])
+    ev.unsupported("two_sum of these operands", node, fr)
+
+
+def h_two_product(ev, args, kwargs, fr, node):
+    """astropy.time.utils.two_product: error-free multiplication (Veltkamp/Dekker): hi = fl(a*b), lo = a*b - hi exactly."""
+    a, b = args
+    if getattr(ev, "float_fold", False) and _concrete_double(a) and _concrete_double(b):
+        x = round_to_double(a.expr * b.expr)
+        lo = a.expr * b.expr - x
+        if not is_double(lo):
+            ev.unsupported("two_product outside the range where the error term is a double", node, fr)
+        return TupleV([Num(x, isfloat=True), Num(lo, isfloat=True)])
+    if isinstance(a, Num) and isinstance(b, Num):
+        hi = sp.Function("TwoProdHi")(a.expr, b.expr)
+        return TupleV([Num(hi, isfloat=True, shape=a.shape or b.shape), Num(a.expr * b.expr - hi, isfloat=True, shape=a.shape or b.shape)])
+    ev.unsupported("two_product of these operands", node, fr)
+
+
 def h_full(ev, args, kwargs, fr, node):
     fill = kwargs.get("fill_value", args[1] if len(args) > 1 else None)
     if not isinstance(fill, Num) or not fill.expr.is_number:
@@ -3000,6 +3036,8 @@ EXT = {
     "dask.array.fft.rfftfreq": lambda ev, a, k, fr, n: h_rfftfreq(ev, a, k, fr, n, backend="dask"),
     "dask.array.fft.fftfreq": lambda ev, a, k, fr, n: h_fftfreq(ev, a, k, fr, n, backend="dask"),
     "numpy.zeros": h_zeros, "numpy.ones": lambda ev, a, k, fr, n: h_zeros(ev, a, k, fr, n, fill=1),
+    "astropy.time.utils.two_sum": lambda ev, a, k, fr, n: h_two_sum(ev, a, k, fr, n),
+    "astropy.time.utils.two_product": lambda ev, a, k, fr, n: h_two_product(ev, a, k, fr, n),
     "numpy.full": lambda ev, a, k, fr, n: h_full(ev, a, k, fr, n), "numpy.tensordot": lambda ev, a, k, fr, n: h_tensordot(ev, a, k, fr, n),
     "numpy.shape": lambda ev, a, k, fr, n: h_np_shape(ev, a, k, fr, n), "numpy.broadcast_shapes": lambda ev, a, k, fr, n: h_broadcast_shapes(ev, a, k, fr, n),
     "numpy.unravel_index": lambda ev, a, k, fr, n: h_unravel_index(ev, a, k, fr, n),
